@@ -182,6 +182,17 @@ Theorem C11_registered_is_reported :
 Proof. exact @registered_is_reported. Qed.
 Print Assumptions C11_registered_is_reported.
 
+(* a named chain that no ACTIVE rule belongs to is empty after any history: the
+   chains of disabled rules vanish from what the parser applies *)
+Theorem C11_unlisted_chain_empty :
+  forall (F : Type) (ops : list (op F)) (chain : str),
+    let r := run ops ruler_init in
+    chain <> [] ->
+    (forall x, In x (active r) -> mem_str chain (ralt x) = false) ->
+    snd (get_rules r chain) = [].
+Proof. exact @unlisted_chain_empty. Qed.
+Print Assumptions C11_unlisted_chain_empty.
+
 (* enable / disable twice = once: same rules, same (dropped) cache, same value
    returned or exception raised (rule names unique) *)
 Theorem C11_toggle_idempotent :
